@@ -244,6 +244,14 @@ type masterParagraphXML struct {
 	Spans     []masterSpanXML `xml:"span"`
 }
 
+// UnmarshalXML reads a header/footer paragraph keeping the order of its mixed
+// content; the complete text is stored in Text.
+func (p *masterParagraphXML) UnmarshalXML(d *xml.Decoder, start xml.StartElement) (err error) {
+	p.StyleName = attrValue(start, "style-name")
+	_, p.Text, _, err = decodeInlineContent(d)
+	return err
+}
+
 // masterSpanXML represents a text span in header/footer paragraph.
 type masterSpanXML struct {
 	StyleName string `xml:"style-name,attr"`
